@@ -440,6 +440,15 @@ func (e *Engine) specPrelude(toks map[string]bool, mode string) (string, error) 
 					use = true
 				}
 			}
+			if mode == "U" {
+				// U-mode claims are about float64 values: facts about the real-valued functions (sqrt(x)^2 = x,
+				// erfc(-x) = 2 - erfc(x), ranges) do not hold exactly for their float64 counterparts and are left out
+				for d := range deps {
+					if e.specUsesReal(d) {
+						use = false
+					}
+				}
+			}
 			if !use {
 				continue
 			}
